@@ -410,8 +410,8 @@ class Run:
             # must be consistent with the API call(s) that surfaced it having
             # failed in setup.
             hints = {}
-            for key, cls in real.it.injected_calls:
-                hints[('setup_fail', key)] = {'cls': cls}
+            for key, cls, occ in real.it.injected_calls:
+                hints[('setup_fail', key)] = {'cls': cls, 'occ': occ}
             model = self.model_build(step, pre, prev, hints=hints)
             ctx['model'] = model
             self.compare_build(i, ctx)
@@ -1179,7 +1179,21 @@ class Run:
                 plan = [{'kind': 'crash', 'at': k} for k in ks]
             else:
                 only = sc.get('only_calls')
-                if only:
+                if only == ['@cache']:
+                    # the calls that move the old cache file aside and write
+                    # the new one ("while the cache file is being written")
+                    crel = self.sb.rel(self.sb.cache)
+                    ks = []
+                    for k in range(n):
+                        _, knd, pth = first.mut_log[k]
+                        if knd.startswith('gz') or pth == crel:
+                            if pth == crel and knd in ('rename', 'replace') \
+                                    and k > 0 and \
+                                    first.mut_log[k - 1][1] == 'makedirs' \
+                                    and (k - 1) not in ks:
+                                ks.append(k - 1)
+                            ks.append(k)
+                elif only:
                     ks = [k for k in range(n)
                           if first.mut_log[k][1] in only]
                 errnos = sc.get('errnos', ['ENOSPC'])
